@@ -25,6 +25,7 @@ class AXIMaster:
         self.w_done_txn = 0                  # txns whose last W beat handshook
         self.b_i = self.ar_i = self.r_i = 0
         self.log = {"aw": [], "w": [], "b": [], "ar": [], "r": []}
+        self.offered = {"aw": [], "w": [], "ar": []}      # first cycle in which each token was visible
         self.b_ready = self.r_ready = 0
         self.r_cur = []
         self.r_bursts = []                   # per completed read: list of (cycle, resp, data, id)
@@ -101,6 +102,9 @@ class AXIMaster:
                 self.ar.offer(w, (t["addr"], t["burst"], t["len"], t["size"], t.get("id", 0)))
             else:
                 self.ar.idle(w, g)
+        for ch, co in (("aw", self.aw), ("w", self.w), ("ar", self.ar)):
+            while len(self.offered[ch]) < co.offers:
+                self.offered[ch].append(c + 1)
         self.b_ready = 1 if coop else int(self.b_sched.next())
         self.r_ready = 1 if coop else int(self.r_sched.next())
         w[b.b.ready] = self.b_ready
